@@ -27,14 +27,15 @@ ALPHA = {
 
 def bounds(tier):
     if tier == "quick":
-        return dict(spaces=[dict(enz="BpiI", words=5, kmax=2), dict(enz="SapI", words=5, kmax=2), dict(enz="BspD6I", words=4, kmax=2)])
-    return dict(spaces=[dict(enz="BpiI", words=6, kmax=2), dict(enz="BpiI", words=4, kmax=3),
-                        dict(enz="SapI", words=5, kmax=2), dict(enz="SapI", words=4, kmax=3),
-                        dict(enz="BspD6I", words=5, kmax=2), dict(enz="BspD6I", words=4, kmax=3)])
+        return dict(spaces=[dict(enz="BpiI", words=5, kmax=2), dict(enz="BpiI", words=4, kmax=3), dict(enz="SapI", words=5, kmax=2),
+                            dict(enz="BspD6I", words=4, kmax=2)])
+    return dict(spaces=[dict(enz="BpiI", words=6, kmax=2), dict(enz="BpiI", words=5, kmax=3),
+                        dict(enz="SapI", words=5, kmax=2), dict(enz="SapI", words=5, kmax=3),
+                        dict(enz="BspD6I", words=5, kmax=2), dict(enz="BspD6I", words=5, kmax=3)])
 
 
 def goals(tier):
-    return ["product", "error-InvalidSequence", "error-DuplicateModules", "error-MissingModule", "palindromic-start-on-chain",
+    return ["three-modules", "product", "error-InvalidSequence", "error-DuplicateModules", "error-MissingModule", "palindromic-start-on-chain",
             "self-loop-module", "unused-module", "revcomp-starts", "equal-starts", "several-reasons"]
 
 
@@ -120,8 +121,7 @@ def evaluate(st, scn):
     M, V = gen.generic_classes(enz)
     v = V(gen.crec(vs[0], "vec"))
     ents = [M(gen.crec(m[0], "mod%d" % i)) for i, m in enumerate(ms)]
-    if not v.is_valid() or not all(e.is_valid() for e in ents):
-        raise HarnessError("generated plasmids are not accepted by the generic classes: {}".format(scn))
+    # (no pre-check of validity: if a well-formed plasmid is rejected the outcome comparison below reports it)
     o = asm.run_assemble(v, [ents[i] for i in perm])
     ids = {"mod%d" % i: i for i in range(len(mods))}
     if model["kind"] == "product":
@@ -204,6 +204,8 @@ def run_unit(unit, st, tier):
                         st.goal("equal-starts" if mods[i][0] == mods[j][0] else "revcomp-starts")
                 if any(s == e for s, e in mods):
                     st.goal("self-loop-module")
+                if k == 3:
+                    st.goal("three-modules")
                 st.scenario(outcome, None)
                 if nontrivial:
                     st.nontrivial += 1
